@@ -39,6 +39,29 @@ void __tsan_vptr_read(void **) {}
 void __sanitizer_cov_trace_pc() { if (g_tsan.pc) g_tsan.pc(__builtin_return_address(0)); }
 void __sanitizer_cov_trace_pc_guard(unsigned *) { if (g_tsan.pc) g_tsan.pc(__builtin_return_address(0)); }
 void __sanitizer_cov_trace_pc_guard_init(unsigned *, unsigned *) {}
+// C11 atomics in instrumented code (-fsanitize=thread routes them through the run-time).  They are performed for real and
+// reported through a separate hook: a synchronisation point for the scheduler, and a write to static storage is still
+// hidden mutable global state.
+#define ATOMHOOK(addr, size, wr) do { if (g_tsan.atomic) g_tsan.atomic((void *)(addr), (size), (wr), __builtin_return_address(0)); } while (0)
+#define TSAN_ATOMICS(N, T) \
+    T __tsan_atomic##N##_load(const volatile T *a, int) { ATOMHOOK(a, N / 8, 0); return __atomic_load_n(a, __ATOMIC_SEQ_CST); } \
+    void __tsan_atomic##N##_store(volatile T *a, T v, int) { ATOMHOOK(a, N / 8, 1); __atomic_store_n(a, v, __ATOMIC_SEQ_CST); } \
+    T __tsan_atomic##N##_exchange(volatile T *a, T v, int) { ATOMHOOK(a, N / 8, 1); return __atomic_exchange_n(a, v, __ATOMIC_SEQ_CST); } \
+    T __tsan_atomic##N##_fetch_add(volatile T *a, T v, int) { ATOMHOOK(a, N / 8, 1); return __atomic_fetch_add(a, v, __ATOMIC_SEQ_CST); } \
+    T __tsan_atomic##N##_fetch_sub(volatile T *a, T v, int) { ATOMHOOK(a, N / 8, 1); return __atomic_fetch_sub(a, v, __ATOMIC_SEQ_CST); } \
+    T __tsan_atomic##N##_fetch_and(volatile T *a, T v, int) { ATOMHOOK(a, N / 8, 1); return __atomic_fetch_and(a, v, __ATOMIC_SEQ_CST); } \
+    T __tsan_atomic##N##_fetch_or(volatile T *a, T v, int) { ATOMHOOK(a, N / 8, 1); return __atomic_fetch_or(a, v, __ATOMIC_SEQ_CST); } \
+    T __tsan_atomic##N##_fetch_xor(volatile T *a, T v, int) { ATOMHOOK(a, N / 8, 1); return __atomic_fetch_xor(a, v, __ATOMIC_SEQ_CST); } \
+    T __tsan_atomic##N##_fetch_nand(volatile T *a, T v, int) { ATOMHOOK(a, N / 8, 1); return __atomic_fetch_nand(a, v, __ATOMIC_SEQ_CST); } \
+    int __tsan_atomic##N##_compare_exchange_strong(volatile T *a, T *c, T v, int, int) { ATOMHOOK(a, N / 8, 1); return __atomic_compare_exchange_n(a, c, v, 0, __ATOMIC_SEQ_CST, __ATOMIC_SEQ_CST); } \
+    int __tsan_atomic##N##_compare_exchange_weak(volatile T *a, T *c, T v, int, int) { ATOMHOOK(a, N / 8, 1); return __atomic_compare_exchange_n(a, c, v, 0, __ATOMIC_SEQ_CST, __ATOMIC_SEQ_CST); } \
+    T __tsan_atomic##N##_compare_exchange_val(volatile T *a, T c, T v, int, int) { ATOMHOOK(a, N / 8, 1); __atomic_compare_exchange_n(a, &c, v, 0, __ATOMIC_SEQ_CST, __ATOMIC_SEQ_CST); return c; }
+TSAN_ATOMICS(8, uint8_t)
+TSAN_ATOMICS(16, uint16_t)
+TSAN_ATOMICS(32, uint32_t)
+TSAN_ATOMICS(64, uint64_t)
+void __tsan_atomic_thread_fence(int) {}
+void __tsan_atomic_signal_fence(int) {}
 void *__tsan_memcpy(void *d, const void *s, unsigned long n) { MEMHOOK(s, (unsigned)n, 0); MEMHOOK(d, (unsigned)n, 1); return __builtin_memcpy(d, s, n); }
 void *__tsan_memset(void *d, int c, unsigned long n) { MEMHOOK(d, (unsigned)n, 1); return __builtin_memset(d, c, n); }
 void *__tsan_memmove(void *d, const void *s, unsigned long n) { MEMHOOK(s, (unsigned)n, 0); MEMHOOK(d, (unsigned)n, 1); return __builtin_memmove(d, s, n); }
